@@ -115,7 +115,10 @@ def bigsum(body, n, dt=None):
         total = t if total is None else total + t
     if total is None: total = z3.RealVal(0)
     dtype = dt if dt is not None and symnp._rnp.dtype(dt).kind == 'f' else 'float64'
-    return SFloat(z3.simplify(total), dtype)
+    r = SFloat(z3.simplify(total), dtype)
+    if dt is not None and symnp._rnp.dtype(dt).kind == 'f':
+        ls = [v for v in (getattr(f, 'lossy', None), 8 * symnp._rnp.dtype(dt).itemsize) if v is not None]; r.lossy = min(ls)      # a float sum is an inexact operation in its dtype
+    return r
 
 def install(): symnp.SUM_HOOK[0] = bigsum
 
